@@ -345,7 +345,13 @@ def clause_lines(out, clauses, fnq, kind, indent, default_props, clause_index, l
 
 def gen_fn(out, unit, f, sf, meta, probe):
     src = sf.src
-    sig_start, bopen, bclose, header = locate_fn(sf, f)
+    try:
+        sig_start, bopen, bclose, header = locate_fn(sf, f)
+    except GenError:
+        if getattr(f, 'optional', False):
+            meta.setdefault('absent_optional', []).append(f.qual)
+            return
+        raise
     fnq = f.qual
     relfile = os.path.relpath(sf.path, meta['repo'])
     src_line0 = rs.line_of(src, sig_start)
